@@ -1,6 +1,6 @@
 SPECIFICATION TraceSpec
 CONSTANTS
   StrictKinds = FALSE
-  AllowSpuriousNone = TRUE
+  AllowSpuriousNone = FALSE
 POSTCONDITION Accepted
 CHECK_DEADLOCK FALSE
